@@ -41,6 +41,11 @@ pub struct BloomCase {
     /// filter B is built with another hasher count (same bit budget): a merge must be refused or stay free of false negatives
     #[serde(default)]
     pub b_hashers: Option<usize>,
+    /// the serialized filter is additionally read back with ANOTHER stored config (elements, bit budget, rate in 1/1000;
+    /// same hasher count) next to the same bits and bit count - what index files of earlier releases look like, whose
+    /// incremental sizing produced bit counts today's formula does not give for the stored config
+    #[serde(default)]
+    pub legacy_cfg: Option<(usize, usize, u32)>,
 }
 
 struct Provider {
@@ -85,9 +90,9 @@ pub fn bloom_strategy() -> BoxedStrategy<BloomCase> {
         prop::collection::vec(k4_strategy(), 0..20),
         prop::collection::vec(k4_strategy(), 0..20),
         any::<bool>(),
-        prop_oneof![3 => Just(None), 2 => (0usize..6).prop_map(Some)],
+        (prop_oneof![3 => Just(None), 2 => (0usize..6).prop_map(Some)], prop_oneof![1 => Just(None), 1 => (0usize..3000, 0usize..5000, prop_oneof![Just(0u32), Just(1), Just(10), Just(500), Just(1000)]).prop_map(Some)]),
     )
-        .prop_map(|((elements, hashers, max_bits, fpr_millis), a, b, probes, file_offset, ka, kb, kprobes, combined_with_bloom, b_hashers)| BloomCase { elements, hashers, max_bits, fpr_millis, a, b, probes, file_offset: file_offset % 700, ka, kb, kprobes, combined_with_bloom, b_hashers })
+        .prop_map(|((elements, hashers, max_bits, fpr_millis), a, b, probes, file_offset, ka, kb, kprobes, combined_with_bloom, (b_hashers, legacy_cfg))| BloomCase { elements, hashers, max_bits, fpr_millis, a, b, probes, file_offset: file_offset % 700, ka, kb, kprobes, combined_with_bloom, b_hashers, legacy_cfg })
         .boxed()
 }
 
@@ -243,6 +248,43 @@ pub fn run_bloom(c: &BloomCase, _dir: &Path) -> Result<CaseOut, Failure> {
         }
         if off.contains_in_memory(k).is_some() {
             return fail("bloom/offload", "off-loaded filter still answers from memory".into());
+        }
+    }
+    // 3b. the same bits next to another stored config (an index file of an earlier release): answers must not change
+    if let (Some((el, mb, fpr)), true) = (c.legacy_cfg, raw.len() >= 40) {
+        let mut raw_l = raw.clone();
+        // bincode layout of the config: elements, hashers_count, max_buf_bits_count, buf_increase_step (u64 each), rate (f64)
+        raw_l[0..8].copy_from_slice(&(el as u64).to_le_bytes());
+        raw_l[16..24].copy_from_slice(&(mb as u64).to_le_bytes());
+        raw_l[24..32].copy_from_slice(&8196u64.to_le_bytes());
+        raw_l[32..40].copy_from_slice(&(fpr as f64 / 1000.0).to_le_bytes());
+        let a3 = match Bloom::from_raw(&raw_l) {
+            Ok(x) => x,
+            Err(e) => return fail("bloom/legacy-from_raw-err", format!("{:#}", e)),
+        };
+        labels.insert("legacy_config_next_to_bits".to_string());
+        let mut bytes = vec![0x5Au8; c.file_offset as usize];
+        bytes.extend_from_slice(&raw_l);
+        let provider_l = Provider { bytes, off: c.file_offset as usize };
+        let mut off3 = a3.clone();
+        off3.offload_from_memory();
+        for k in &all {
+            queries += 1;
+            if mem(&a3, k) != mem(&a, k) {
+                return fail("bloom/legacy-roundtrip-differs", format!("key {:?}: {:?} after from_raw with another stored config vs {:?}", k, mem(&a3, k), mem(&a, k)));
+            }
+            for f in [&a3, &off3] {
+                queries += 1;
+                let got = match rt.block_on(f.contains_in_file(&provider_l, k)) {
+                    Ok(g) => g,
+                    Err(e) => return fail("bloom/legacy-in-file-err", format!("key {:?}: {:#}", k, e)),
+                };
+                if got != mem(&a, k) {
+                    let stored = c.a.contains(k);
+                    let clause = if stored && got == FilterResult::NotContains { "bloom/legacy-in-file-false-negative" } else { "bloom/legacy-in-file-differs" };
+                    return fail(clause, format!("key {:?} (added: {}): in file {:?}, in memory {:?}", k, stored, got, mem(&a, k)));
+                }
+            }
         }
     }
     // 4. merge
